@@ -8,6 +8,7 @@ CONSTANTS
   EmitBeh = TRUE
   MaxSnaps = 0
   MaxRestores = 0
+  MaxRebinds = 0
   Bug <- NoBugs
 INVARIANTS NextStatementFrozen FlowRefinesSem NextArgIgnored StackDiscipline EndAbsorbing EndReportedOnlyWhenEnded
            PendingNextIsNoOp DoneNeverWaits WaitingOnlyWhilePending CountIsJumpsOut VisitedIffPositive
